@@ -195,6 +195,35 @@ func runC14(c *Ctx) {
 			}
 		}
 
+		// ---------------- cross-simulator history probe (sequential) ----------------
+		// a simulator with a LARGE process limit is run and Reset, then one with a SMALL limit runs a
+		// splitting warrior: its outcome must be the reference outcome, whatever the first one left behind
+		{
+			bc := genBattle(r, 2, false)
+			big := *bc
+			big.P = r.Range(6, 12)
+			if sb, _, err := big.newReal(0); err == nil {
+				sb.Run()
+				sb.Reset()
+			}
+			small := *bc
+			small.P = r.Range(1, 3)
+			small.C = r.Range(5, 60)
+			spl := mars.Insn{Op: mars.SPL, Mod: mars.MB, AM: mars.DIR, BM: mars.DIR, A: 0, B: 0}
+			small.Warriors = []*BWarrior{{Code: []mars.Insn{spl, {Op: mars.JMP, Mod: mars.MB, AM: mars.DIR, BM: mars.DIR, A: small.M - 1}}, Start: 0, Off: r.Intn(small.M)}}
+			ss, ws, err := small.newReal(0)
+			if err == nil {
+				ss.Run()
+				ref := small.newRef(0)
+				ref.Run()
+				if ok, d := compareBattle(ss, ws, ref, 0); !ok {
+					c.Violate("C14:simulator-affected-by-earlier-simulator", "a simulator created after another one was run and Reset behaves differently from the reference: "+d, small.describe())
+					return
+				}
+				c.Inc("cross_simulator_history_probes")
+			}
+		}
+
 		// ---------------- concurrent jobs ----------------
 		ac := randAsmConfig(r, asm.D94)
 		if ac.CoreSize > 8192 || ac.CoreSize < 80 {
@@ -217,7 +246,7 @@ func runC14(c *Ctx) {
 		var jobs []*job
 		for k := 0; k < njobs; k++ {
 			j := &job{cfg: gc}
-			switch x := r.Intn(12); {
+			switch x := r.Intn(15); {
 			case x < 2:
 				j.kind = jkAsmValid
 				j.text, _ = tg.validProgram(r, asm.D94, ac)
@@ -247,7 +276,7 @@ func runC14(c *Ctx) {
 				jb.P = r.Range(1, 8)
 				jb.C = r.Range(1, 200)
 				j.cfg = jb.config()
-				j.reset = r.Chance(1, 3)
+				j.reset = r.Chance(1, 2)
 				n := r.Range(1, len(sharedPool))
 				ref := mars.NewBattle(jb.M, jb.P, jb.C, jb.R, jb.W)
 				for i := 0; i < n; i++ {
@@ -272,14 +301,19 @@ func runC14(c *Ctx) {
 			}
 			jobs = append(jobs, j)
 		}
-		// repeat some texts many times: map iteration order must not show
-		reps := jobs[:min(len(jobs), 3)]
-		for _, j := range reps {
-			if j.kind <= jkAsmEqu {
-				for k := 0; k < 20; k++ {
-					cp := *j
-					jobs = append(jobs, &cp)
-				}
+		// repeat texts many times: map iteration order must not show (the first three jobs 20x, every
+		// FOR-heavy and EQU-heavy one 8x)
+		base := len(jobs)
+		for k, j := range jobs[:base] {
+			reps := 0
+			if j.kind <= jkAsmEqu && k < 3 {
+				reps = 20
+			} else if j.kind == jkAsmFor || j.kind == jkAsmEqu {
+				reps = 8
+			}
+			for ; reps > 0; reps-- {
+				cp := *j
+				jobs = append(jobs, &cp)
 			}
 		}
 		// run-alone results: for half of the jobs before the concurrent phase, for the others only
